@@ -46,3 +46,16 @@ package gi
 //@   property C19
 //@   full-loop len(names)
 //@   ensures one-setf-per-variable: is(result0, slip.List) && len(as(result0, slip.List)) == 3 + len(names)
+
+// C19: a value that snapshot writes after setq / defconstant is written as data: a non-empty list and a
+// symbol that is not a keyword are quoted (unquoted, loading the snapshot would call the list and look the
+// symbol up as a variable).
+//@ define quoted_form(f, x) = is(f, slip.List) && len(as(f, slip.List)) == 2 && as(f, slip.List)[1] == x
+//@ func gi.ppValue
+//@   property C19
+//@   ensures lists-are-quoted: (is(v, slip.List) && len(as(v, slip.List)) > 0) ==> quoted_form(pv, v)
+//@   ensures symbols-are-quoted: (is(v, slip.Symbol) && len(as(v, slip.Symbol)) > 0 && as(v, slip.Symbol)[0] != ':') ==> quoted_form(pv, v)
+//@   ensures numbers-and-strings-as-they-are: (is(v, slip.Fixnum) || is(v, slip.String)) ==> pv == v
+//@ func gi.appendSnapshotConstants
+//@   property C19
+//@   on-call ppValue the-value-of-the-constant-is-written-as-data: $arg0_from == "Value"
